@@ -139,7 +139,9 @@ def compare_program(ctx, c, coq_scripts, coq_sem, coq_enum, stats):
     """c: case dict with prog, src, vars, N, paths (from the real simulator).  Returns True if all agree."""
     nv = len(c["vars"])
     N = c["N"]
-    replay_base = {"program": c["src"], "iterations": N, "variables": c["vars"], "parsed_by_polar": c.get("parsed")}
+    replay_base = {"program": c["src"], "iterations": N, "variables": c["vars"], "parsed_by_polar": c.get("parsed"),
+                   "ast": enc(c["prog"]), "form": "parsed" if c["src"].startswith("(parsed form") else "source",
+                   "explicit_last": c.get("explicit_last", False)}
     sig = "sim:" + sig_of(c["src"])
     # (a) script by script
     if len(coq_scripts) != len(c["paths"]):
@@ -224,42 +226,43 @@ def compare_program(ctx, c, coq_scripts, coq_sem, coq_enum, stats):
     return True
 
 
+def action_goals(c):
+    x, y = c["vars"][0], c["vars"][-1]
+    goals = [f"E({x})", f"E({x}**2)", f"E({x}*{y} + 1)", f"P({x} >= 1) <= ?", f"P({y} > 0) >= ?"]
+    if len(set(c["vars"])) == 1:
+        goals = goals[:2] + goals[3:]
+    return goals
+
+
 def k_action(ctx, cases, stats):
     """SimulationAction / SimulationResult: goals E(..), P(.. >= c), P(.. > c) averaged over two scripted samples
-    must be the average of the goal on the two end states (computed here on exact rationals)"""
-    tasks, meta = [], []
-    limit = ctx.pick(24, 150)
+    (first and last script of the program) must be the average of the goal on the two end states
+    (computed here on exact rationals)"""
+    st = {"runs": 0, "agree": 0}
     for c in cases:
-        if len(c["paths"]) < 2 or len(tasks) >= limit:
+        r = c.get("action")
+        if r is None:
             continue
-        x = c["vars"][0]
-        y = c["vars"][-1]
-        goals = [f"E({x})", f"E({x}**2)", f"E({x}*{y} + 1)", f"P({x} >= 1) <= ?", f"P({y} > 0) >= ?"]
-        if len(set(c["vars"])) == 1:
-            goals = goals[:2] + goals[3:]
+        st["runs"] += 1
+        x, y = c["vars"][0], c["vars"][-1]
+        goals = c["goals"]
         p1, p2 = c["paths"][0], c["paths"][-1]
         exp = []
         for g in goals:
             vals = []
             for p in (p1, p2):
-                st = dict(zip(c["vars"], (Fraction(v) for v in p["states"][-1])))
+                stt = dict(zip(c["vars"], (Fraction(v) for v in p["states"][-1])))
                 if g.startswith(f"E({x})"):
-                    vals.append(st[x])
+                    vals.append(stt[x])
                 elif g.startswith(f"E({x}**2)"):
-                    vals.append(st[x] ** 2)
+                    vals.append(stt[x] ** 2)
                 elif g.startswith("E("):
-                    vals.append(st[x] * st[y] + 1)
+                    vals.append(stt[x] * stt[y] + 1)
                 elif ">=" in g.split(")")[0]:
-                    vals.append(Fraction(1 if st[x] >= 1 else 0))
+                    vals.append(Fraction(1 if stt[x] >= 1 else 0))
                 else:
-                    vals.append(Fraction(1 if st[y] > 0 else 0))
+                    vals.append(Fraction(1 if stt[y] > 0 else 0))
             exp.append(sum(vals) / 2)
-        tasks.append({"kind": "sim_action", "src": c["src"], "N": c["N"], "scripts": [p1["script"], p2["script"]], "goals": goals,
-                      "timeout": 120})
-        meta.append((c, goals, exp, p1, p2))
-    res = lib.run_tasks(tasks, timeout=120) if tasks else []
-    st = {"runs": len(tasks), "agree": 0}
-    for (c, goals, exp, p1, p2), r in zip(meta, res):
         ctx.coverage["obligations"] += 1
         ctx.count({"action": c["src"], "s": [p1["script"], p2["script"]]})
         what = None
@@ -289,60 +292,112 @@ def k_action(ctx, cases, stats):
             if sig == KNOWN_TAIL_GOAL:
                 st["tail_goal_at_equality"] = st.get("tail_goal_at_equality", 0) + 1
             new = ctx.violation(sig, {"program": c["src"], "iterations": c["N"], "goals": goals,
-                                                         "scripts": [p1["script"], p2["script"]], "printed": r.get("lines"),
-                                                         "expected": [str(e) for e in exp]},
-                          f"{what}\n  scripts {p1['script']} and {p2['script']} (number_samples=2) of\n{c['src']}")
+                                      "scripts": [p1["script"], p2["script"]], "printed": r.get("lines"),
+                                      "expected": [str(e) for e in exp]},
+                                f"{what}\n  scripts {p1['script']} and {p2['script']} (number_samples=2) of\n{c['src']}")
             if not new:
                 ctx.coverage["discharged"] += 1          # instance decided: known finding
     stats["simulation_action"] = st
 
 
-def k_simulator(ctx):
+def dec_e(t):
+    k = t[0]
+    if k == "const":
+        return ("const", Fraction(t[1][1]))
+    if k == "var":
+        return ("var", t[1])
+    if k == "pow":
+        return ("pow", dec_e(t[1]), t[2])
+    if k == "neg":
+        return ("neg", dec_e(t[1]))
+    return (k, dec_e(t[1]), dec_e(t[2]))
+
+
+def dec_c(t):
+    k = t[0]
+    if k in ("true", "false"):
+        return (k,)
+    if k == "atom":
+        return ("atom", dec_e(t[1]), t[2], dec_e(t[3]))
+    if k == "not":
+        return ("not", dec_c(t[1]))
+    return (k, dec_c(t[1]), dec_c(t[2]))
+
+
+def dec_r(t):
+    if t[0] == "choice":
+        return ("choice", [(dec_e(p), dec_e(e)) for p, e in t[1]])
+    d = t[1]
+    if d[0] == "bern":
+        return ("draw", ("bern", dec_e(d[1])))
+    if d[0] == "cat":
+        return ("draw", ("cat", [dec_e(q) for q in d[1]]))
+    return ("draw", ("unif", d[1], d[2]))
+
+
+def dec_b(b):
+    out = []
+    for st in b:
+        if st[0] == "assign":
+            out.append(("assign", st[1], dec_r(st[2])))
+        elif st[0] == "gassign":
+            out.append(("gassign", st[1], dec_c(st[2]), st[3], dec_r(st[4])))
+        elif st[0] == "simult":
+            out.append(("simult", [(x, dec_r(r)) for x, r in st[1]]))
+        else:
+            out.append(("if", [(dec_c(c), dec_b(bb)) for c, bb in st[1]], dec_b(st[2]) if st[2] is not None else None))
+    return out
+
+
+def dec_prog(a):
+    return {"types": [], "init": dec_b(a["init"]), "guard": dec_c(a["guard"]), "body": dec_b(a["body"])}
+
+
+def k_simulator(ctx, only=None):
     nprog = ctx.pick(70, 420)
     N0 = ctx.pick(3, 4)
-    cap = 2000
-    gens = simgen.generate(ctx.rng, nprog, size=ctx.pick(1, 2))
+    cap = ctx.pick(1000, 2000)
+    gens = simgen.generate(ctx.rng, nprog, size=ctx.pick(1, 2)) if only is None else only
     cases = []
     for g in gens:
         p = g["prog"]
         cases.append({"prog": p, "src": progast.prog_text(p, implicit_last=not g["explicit_last"]),
-                      "vars": progast.prog_vars(p), "N": N0, "kinds": g["kinds"], "explicit_last": g["explicit_last"]})
+                      "vars": progast.prog_vars(p), "N": g.get("N", N0), "kinds": g["kinds"], "explicit_last": g["explicit_last"]})
     stats = {"programs": len(cases), "paths": 0, "frozen_steps": 0, "paths_with_frozen_suffix": 0,
              "programs_with_frozen_suffix": 0, "overflow_retries": 0, "dropped_overflow": 0, "worker_errors": {},
              "random_calls": {"choices": 0, "choice": 0, "bernoulli": 0}, "horizon_hist": {}, "paths_hist": {}}
-    pending = list(range(len(cases)))
+    limit = ctx.pick(24, 150)
+    tasks = []
+    for i, c in enumerate(cases):
+        t = {"kind": "sim_enum", "src": c["src"], "N": c["N"], "vars": c["vars"], "cap": cap, "timeout": 240}
+        if i < limit:
+            c["goals"] = action_goals(c)
+            t["goals"] = c["goals"]
+        tasks.append(t)
+    res = yield tasks
     done = []
-    while pending:
-        tasks = [{"kind": "sim_enum", "src": cases[i]["src"], "N": cases[i]["N"], "vars": cases[i]["vars"], "cap": cap,
-                  "timeout": 120} for i in pending]
-        res = lib.run_tasks(tasks, timeout=120)
-        nxt = []
-        for i, r in zip(pending, res):
-            c = cases[i]
-            if r.get("overflow"):
-                if c["N"] > 1:
-                    c["N"] -= 1
-                    stats["overflow_retries"] += 1
-                    nxt.append(i)
-                else:
-                    stats["dropped_overflow"] += 1
-                continue
-            if "error" in r:
-                key = r.get("etype", r["error"])
-                stats["worker_errors"][key] = stats["worker_errors"].get(key, 0) + 1
-                if r["error"] == "exception":
-                    # the model never fails on these (initialised, finite) programs: a disagreement
-                    ctx.violation("sim-exception:" + sig_of(c["src"]),
-                                  {"program": c["src"], "iterations": c["N"], "exception": r.get("etype"), "message": r.get("msg"),
-                                   "where": r.get("where")},
-                                  f"the simulator raised {r.get('etype')}: {str(r.get('msg'))[:200]} on\n{c['src']}")
-                continue
-            c["paths"] = r["paths"]
-            c["parsed"] = r["parsed"]
-            for k in stats["random_calls"]:
-                stats["random_calls"][k] += r["calls"][k]
-            done.append(i)
-        pending = nxt
+    for i, (c, r) in enumerate(zip(cases, res)):
+        if r.get("overflow"):
+            stats["dropped_overflow"] += 1
+            continue
+        if "error" in r:
+            key = r.get("etype", r["error"])
+            stats["worker_errors"][key] = stats["worker_errors"].get(key, 0) + 1
+            if r["error"] == "exception":
+                # the model never fails on these (initialised, finite) programs: a disagreement
+                ctx.violation("sim-exception:" + sig_of(c["src"]),
+                              {"program": c["src"], "iterations": c["N"], "exception": r.get("etype"), "message": r.get("msg"),
+                               "where": r.get("where")},
+                              f"the simulator raised {r.get('etype')}: {str(r.get('msg'))[:200]} on\n{c['src']}")
+            continue
+        c["paths"] = r["paths"]
+        c["parsed"] = r["parsed"]
+        c["N"] = r["N"]
+        c["action"] = r.get("action")
+        stats["overflow_retries"] += r["overflow_retries"]
+        for k in stats["random_calls"]:
+            stats["random_calls"][k] += r["calls"][k]
+        done.append(i)
     # Coq side: several programs per file, balanced by number of paths
     order = sorted(done, key=lambda i: -len(cases[i]["paths"]))
     files, cur, load = [], [], 0
@@ -440,16 +495,16 @@ def pprog_text(p):
     return "\n".join(blk(p["init"], 0) + [f"while {progast.c_text(p['guard'])}:"] + blk(p["body"], 1) + ["end"]) + "\n"
 
 
-def k_guarded(ctx):
+def k_guarded(ctx, only=None):
     n = ctx.pick(30, 160)
     N = 3
-    gens = simgen.guarded(ctx.rng, n)
+    gens = simgen.guarded(ctx.rng, n) if only is None else only
     cases = []
     for g in gens:
-        cases.append({"prog": g["prog"], "vars": g["vars"], "N": N, "src": "(parsed form: assignment | condition : default)\n" + pprog_text(g["prog"])})
+        cases.append({"prog": g["prog"], "vars": g["vars"], "N": g.get("N", N), "src": "(parsed form: assignment | condition : default)\n" + pprog_text(g["prog"])})
     tasks = [{"kind": "sim_enum_parsed", "prog": {k: enc(v) for k, v in c["prog"].items()}, "N": c["N"], "vars": c["vars"],
-              "cap": 2000, "timeout": 120} for c in cases]
-    res = lib.run_tasks(tasks, timeout=120)
+              "cap": 2000, "timeout": 240} for c in cases]
+    res = yield tasks
     stats = {"programs": len(cases), "paths": 0, "frozen_steps": 0, "paths_with_frozen_suffix": 0, "dropped_overflow": 0,
              "programs_agreeing": 0}
     done = []
@@ -610,14 +665,15 @@ def same_number(recorded, exact):
     return recorded == exact or abs(recorded - exact) <= Fraction(1, 10 ** 12) * max(1, abs(exact))
 
 
-def k_samplers(ctx, desc):
+def k_samplers(ctx, desc, proof_ok=True):
     cases = sampler_cases(ctx)
     tcases = [{"dist": d, "params": [str(p) for p in ps]} for d, ps in cases]
-    chunks = [tcases[i::8] for i in range(8)]
-    idx = [list(range(len(tcases)))[i::8] for i in range(8)]
-    args_res = lib.run_tasks([{"kind": "sim_sampler_args", "cases": ch, "timeout": 240} for ch in chunks], timeout=240)
-    draws_res = lib.run_tasks([{"kind": "sim_draws", "cases": ch, "n": 1000, "seed": 12345 + 1000 * j, "timeout": 240}
-                               for j, ch in enumerate(chunks)], timeout=240)
+    chunks = [tcases[i::4] for i in range(4)]
+    idx = [list(range(len(tcases)))[i::4] for i in range(4)]
+    both = yield ([{"kind": "sim_sampler_args", "cases": ch, "timeout": 240} for ch in chunks] +
+                  [{"kind": "sim_draws", "cases": ch, "n": 1000, "seed": 12345 + 1000 * j, "timeout": 240}
+                   for j, ch in enumerate(chunks)])
+    args_res, draws_res = both[:len(chunks)], both[len(chunks):]
     rec = [None] * len(tcases)
     drw = [None] * len(tcases)
     for ch_i, (ra, rd) in enumerate(zip(args_res, draws_res)):
@@ -769,7 +825,7 @@ def k_samplers(ctx, desc):
             ctx.violation(sig, {"distribution": label, "seeded_draws": d},
                           f"{label}: {d['outside']} of 1000 seeded draws outside get_support() {d['support']}, first {d['first']}")
     # the Coq table polar_mean_var (the specification used by the *_sampler_params theorems) = get_moment
-    if coq_rows:
+    if coq_rows and proof_ok:      # (needs SimulatorSamplers.vo, i.e. the sampler theorems must check)
         body = ("From Coq Require Import List String QArith Qcanon ZArith.\nFrom Polar Require Import Qcx SimulatorSamplerBase SimulatorSamplers.\n"
                 "Import ListNotations.\nOpen Scope string_scope.\n"
                 "Definition mk (l : list (string * Qc)) (x : string) : Qc := match find (fun p => String.eqb (fst p) x) l with Some p => snd p | None => 0%Qc end.\n"
@@ -825,7 +881,7 @@ def k_analysis(ctx):
         g["vars"] = progast.prog_vars(g["prog"])
         tasks.append({"kind": "sim_enum", "src": src, "N": N, "vars": g["vars"], "cap": 4000, "timeout": 120})
         tasks.append({"kind": "sim_analysis", "src": src, "monomials": [mono_str(m) for m in monos], "N": N, "timeout": 120})
-    res = lib.run_tasks(tasks, timeout=120)
+    res = yield tasks
     st = {"programs": len(progs), "compared_moments": 0, "agree": 0, "analysis_refused": {}, "skipped": 0}
     for i, g in enumerate(progs):
         sim, ana = res[2 * i], res[2 * i + 1]
@@ -861,6 +917,27 @@ def k_analysis(ctx):
     ctx.coverage["analysis_vs_simulator"] = st
 
 
+def drive(ctx, campaigns):
+    """every campaign is a generator: it yields the worker tasks it needs, receives their results and then does
+    its Coq evaluations and comparisons.  All tasks go through ONE pool of Polar workers."""
+    phases = {}
+    t0 = ctx.elapsed()
+    lists = [(name, g, next(g)) for name, g in campaigns]
+    alltasks = [t for _, _, ts in lists for t in ts]
+    results = lib.run_tasks(alltasks, timeout=240) if alltasks else []
+    phases["polar_workers"] = round(ctx.elapsed() - t0, 1)
+    pos = 0
+    for name, g, ts in lists:
+        t0 = ctx.elapsed()
+        try:
+            g.send(results[pos:pos + len(ts)])
+        except StopIteration:
+            pass
+        pos += len(ts)
+        phases[name] = round(ctx.elapsed() - t0, 1)
+    return phases
+
+
 def run(ctx):
     # T: sampler descriptors from the working tree
     desc = None
@@ -888,14 +965,25 @@ def run(ctx):
         "that scipy.stats / random sample their documented laws is trusted (seeded draws are validation only)",
         "settings.transform_categoricals = False (default); the categorical-expansion option is C17's",
     ]
+    if ctx.replay:
+        # ./check C12 --replay replays/C12/<hash>.json : re-run the recorded program through every script
+        import json
+        with open(ctx.replay) as f:
+            rp = json.load(f)
+        if "ast" in rp:
+            prog = dec_prog(rp["ast"])
+            if rp.get("form") == "parsed":
+                drive(ctx, [("guarded", k_guarded(ctx, only=[{"prog": prog, "vars": rp["variables"], "N": rp["iterations"]}]))])
+            else:
+                drive(ctx, [("simulator", k_simulator(ctx, only=[{"prog": prog, "kinds": {}, "N": rp["iterations"],
+                                                                   "explicit_last": rp.get("explicit_last", False)}]))])
+            ctx.coverage["rule"] = f"replay of {ctx.replay}"
+            return
+        print("  replay file has no program; running the whole check", flush=True)
     before = len(ctx.violations) + len(ctx.known_hits)
     phases = {"translate+coq_build": round(ctx.elapsed(), 1)}
-    for name, fn in (("simulator", lambda: k_simulator(ctx)), ("guarded", lambda: k_guarded(ctx)),
-                     ("samplers", lambda: k_samplers(ctx, desc)),
-                     ("analysis", lambda: k_analysis(ctx))):
-        t0 = ctx.elapsed()
-        fn()
-        phases[name] = round(ctx.elapsed() - t0, 1)
+    phases.update(drive(ctx, [("simulator", k_simulator(ctx)), ("guarded", k_guarded(ctx)),
+                              ("samplers", k_samplers(ctx, desc, ok)), ("analysis", k_analysis(ctx))]))
     ctx.coverage["phase_seconds"] = phases
     found = len(ctx.violations) + len(ctx.known_hits) - before
     if trans_err is not None and not ctx.violations:
@@ -910,6 +998,6 @@ def run(ctx):
     ctx.coverage["rule"] = (
         "programs from harness/simgen.py (finite discrete; nested if/elif/else, 2-4 way choices incl. state-dependent "
         "probabilities, Bernoulli/Categorical/DiscreteUniform, simultaneous assignments, guards that fail); every script of the "
-        f"real simulator to n <= {ctx.pick(3, 4)} (cap 2000 paths, horizon lowered on overflow) is one evaluation; "
+        f"real simulator to n <= {ctx.pick(3, 4)} (cap {ctx.pick(1000, 2000)} paths, horizon lowered on overflow) is one evaluation; "
         "non-trivial = program with >= 2 scripts; distinct by (text, horizon); sampler cases distinct by (family, parameters); "
         "input distribution in coverage.simulator_correspondence (statement_kinds, paths_hist, frozen suffix counts)")
